@@ -216,6 +216,57 @@ def check_per_event_delegation(ctx, tu, cls, rule):
                        okr, detail='extracted result: %s' % shown, key_detail='per-event empty result')
 
 
+def execute_around(f, op):
+    """The operation written as a closure handed to a helper of the class that looks the list up and applies the closure to it
+    (`return withListOf(event, [&](List & l) { return l.append(callback); });`): (ok, detail), or None when f has no such call."""
+    for n in f.calls():
+        gs = [g for g in f.callee_fns(n) if g.clsq == f.clsq and g.kind == 'method']
+        if len(gs) != 1:
+            continue
+        g = gs[0]
+        args = f.call_args(n)
+        for k, a in enumerate(args):
+            if f.nodes[f.value_source(a)]['cls'] != 'LambdaExpr':
+                continue
+            lam = f.functor_body(a)
+            if lam is None or len(lam.params) != 1 or k >= len(g.params):
+                continue
+            lc = [m for m in lam.calls() if (lam.callee(m) or {}).get('name') in ('append', 'prepend', 'insert')]
+            if not lc:
+                continue
+            detail = 'closure passed to %s' % g.skey
+            ok = len(lc) == 1 and lam.callee(lc[0])['name'] == op and lam.call_obj(lc[0]) is not None \
+                and path(lam, lam.call_obj(lc[0]), resolve_refs=False) == ('v:%s#%d' % (lam.params[0]['name'], lam.params[0]['id']),) \
+                and lam.pos_postdominates(lam.pos(lc[0]), (lam.entry, 0))
+            # its arguments are f's own further parameters (captured), in order, and its result is what the closure returns
+            ok = ok and [arg_var(lam, x) for x in lam.call_args(lc[0])] == [p['id'] for p in f.params[1:]]
+            # the helper applies the closure exactly once, to eventCallbackListMap[<its parameter bound to f's event>], and returns that result
+            fid = g.params[k]['id']
+            inv = [m for m in g.calls() if g.nodes[m]['cls'] == 'CXXOperatorCallExpr' and g.nodes[m].get('op') == '()' and g.nodes[m].get('obj') is not None
+                   and root_var_id(path(g, g.nodes[m]['obj'], resolve_refs=False)) == fid]
+            ok = ok and len(inv) == 1 and g.pos_postdominates(g.pos(inv[0]), (g.entry, 0))
+            if ok:
+                ia = g.call_args(inv[0])
+                x = g.strip_all_casts(ia[0]) if len(ia) == 1 else None
+                if x is not None and g.nodes[x]['cls'] == 'DeclRefExpr' and g.decl(x)['kind'] == 'var':
+                    vd = g.var_decls().get(g.decl(x)['id'])
+                    vt = g.tu.type(vd['t']) if vd else None
+                    x = g.strip_all_casts(vd['init']) if vd and vd.get('init') and vt and vt.get('ref') else None
+                ok = x is not None and g.nodes[x]['cls'] == 'CXXOperatorCallExpr' and g.nodes[x].get('op') == '[]'
+                if ok:
+                    oa = g.nodes[x]['args']
+                    ev = [j for j, pp in enumerate(g.params) if arg_is_param(g, oa[1], pp['id'])]
+                    ok = last_field(path(g, oa[0])) == 'eventCallbackListMap' and len(ev) == 1 and ev[0] < len(args) and arg_is_param(f, args[ev[0]], f.params[0]['id'])
+                rets = g.return_nodes()
+                ok = ok and bool(rets) and all(g.kids(r) and g.value_source(g.kids(r)[0]) == inv[0] for r in rets)
+                frets = f.return_nodes()
+                ok = ok and bool(frets) and all(f.kids(r) and f.value_source(f.kids(r)[0]) == n for r in frets)
+                lrets = lam.return_nodes()
+                ok = ok and bool(lrets) and all(lam.kids(r) and lam.value_source(lam.kids(r)[0]) == lc[0] for r in lrets)
+            return ok, detail
+    return None
+
+
 def check_listener_management(ctx, tu, cls, rule, inv_key='CallbackListBase::operator()'):
     """Lookup and per-event listener management of a dispatcher class map exactly onto the list operations."""
     for f in tu.fns_named(cls + '::doFindCallableListHelper'):
@@ -250,6 +301,11 @@ def check_listener_management(ctx, tu, cls, rule, inv_key='CallbackListBase::ope
             calls = [n for n in f.calls() if (f.callee(n) or {}).get('name') in ('append', 'prepend', 'insert')]
             ok = len(calls) == 1 and f.callee(calls[0])['name'] == op
             detail = ''
+            if not calls:
+                ea = execute_around(f, op)
+                if ea is not None:
+                    ctx.ob(rule, f, '%s performs exactly %s(callback...) on the list of the given event' % (name, op), ea[0], detail=ea[1])
+                    continue
             if ok:
                 n = calls[0]
                 objp = path(f, f.call_obj(n))
